@@ -26,6 +26,7 @@ import (
 //	csg:    Tree, P=[delta]           marching cubes of a random CSG tree        anything manifold
 //	height: N=[nx, ny] P=[amp, a, b, phase]  graph of a smooth function on a grid  open disc
 //	cap:    N=[n] P=[dx, dy, dz, c]   icosphere faces with centroid.d > c        open disc (adjusted until it is one)
+//	fan:    N=[k] P=[h]               k triangles around an apex of height h over a regular k-gon: open disc with one interior vertex
 type part struct {
 	Kind   string      `json:"kind"`
 	N      []int       `json:"n,omitempty"`
@@ -203,6 +204,20 @@ func buildPart(p part, maxFaces int) []kit.Tri {
 		ts = mcLimited(p.Tree.Build(), p.P[0], maxFaces)
 	case "height":
 		ts = heightPatch(p.N[0], p.N[1], p.P[0], p.P[1], p.P[2], p.P[3], p.Seed)
+	case "fan":
+		k := p.N[0]
+		ring := make([]kit.V3, k)
+		for i := range ring {
+			th := 2 * math.Pi * float64(i) / float64(k)
+			ring[i] = kit.V3{math.Cos(th), math.Sin(th), 0}
+			if k == 4 {
+				// exact symmetric positions (cos(pi/2) is not 0 in doubles)
+				ring[i] = [4]kit.V3{{1, 0, 0}, {0, 1, 0}, {-1, 0, 0}, {0, -1, 0}}[i]
+			}
+		}
+		for i := range ring {
+			ts = append(ts, kit.Tri{{0, 0, p.P[0]}, ring[i], ring[(i+1)%k]})
+		}
 	case "cap":
 		all := libTris(model3d.NewMeshIcosphere(model3d.Origin, 1, p.N[0]))
 		d := kit.V3{p.P[0], p.P[1], p.P[2]}.Unit()
@@ -382,12 +397,15 @@ func partGen(t *rapid.T, kinds []string, maxFaces int, label string) part {
 		}
 		p.N = []int{rapid.IntRange(1, m).Draw(t, label+".nx"), rapid.IntRange(1, m).Draw(t, label+".ny")}
 		p.P = []float64{gen.F(t, 0, 3, label+".amp"), gen.F(t, 0.2, 1.5, label+".a"), gen.F(t, 0.2, 1.5, label+".b"), gen.F(t, 0, 6, label+".phase")}
+	case "fan":
+		p.N = []int{rapid.IntRange(3, 12).Draw(t, label+".k")}
+		p.P = []float64{gen.F(t, 0, 2, label+".h")}
 	case "cap":
 		d := gen.Dir3(t, label+".dir").Add(kit.V3{0.0113, -0.0057, 0.0031})
 		p.N = []int{rapid.IntRange(1, isqrt(maxFaces/20)).Draw(t, label+".n")}
 		p.P = []float64{d[0], d[1], d[2], gen.F(t, -0.6, 0.95, label+".c")}
 	}
-	if rapid.IntRange(0, 2).Draw(t, label+".jit") > 0 {
+	if rapid.Bool().Draw(t, label+".jit") {
 		p.Jitter = gen.F(t, 0.01, 0.3, label+".jitter")
 	}
 	p.Place = placeGen(t, label+".place")
@@ -395,7 +413,7 @@ func partGen(t *rapid.T, kinds []string, maxFaces int, label string) part {
 }
 
 var closedKinds = []string{"ico", "torus", "box", "tori", "tori", "csg"}
-var discKinds = []string{"height", "cap"}
+var discKinds = []string{"height", "height", "cap", "cap", "fan"}
 
 func tierMaxFaces() int {
 	if kit.Tier() == "thorough" {
@@ -407,7 +425,7 @@ func tierMaxFaces() int {
 // maxFacesGen draws the face budget of a case (small most of the time).
 func maxFacesGen(t *rapid.T) int {
 	hi := tierMaxFaces()
-	return rapid.SampledFrom([]int{60, 150, 300, 600, hi}).Filter(func(v int) bool { return v <= hi }).Draw(t, "maxfaces")
+	return rapid.SampledFrom([]int{60, 150, 300, 600, 600, hi}).Filter(func(v int) bool { return v <= hi }).Draw(t, "maxfaces")
 }
 
 // meshGen draws a mesh: closed surfaces, open discs, optional thinning and several components.
